@@ -232,6 +232,7 @@ def _build_ref(c1, r1, c2, r2, anchor=''):
 
 
 _re_build_id = regex.compile(r'^[0-9]+$')
+_re_plain_sheet = regex.compile(r'^[^\W\d][\w\.]*$')
 
 
 def _build_sheet_id(sheet='', directory='', filename='', **kw):
@@ -242,9 +243,11 @@ def _build_sheet_id(sheet='', directory='', filename='', **kw):
         else:
             if directory and not directory.endswith('/'):
                 directory += '/'
-            sheet = "'%s[%s]%s'" % (directory, filename, sheet)
-    elif ' ' in sheet:
-        sheet = "'%s'" % sheet
+            sheet = "'%s[%s]%s'" % (
+                directory, filename, sheet.replace("'", "''")
+            )
+    elif sheet and not _re_plain_sheet.match(sheet):  # Needs quotes.
+        sheet = "'%s'" % sheet.replace("'", "''")
     return sheet
 
 
